@@ -166,7 +166,7 @@ func (d *disconnectHandler) handleDisconnect() {
 
 	log := d.election.getLogger()
 	log.Warn("connection_disconnected",
-		append(d.election.logWithContext(d.election.ctx),
+		append(d.election.logWithContext(d.election.logCtx()),
 			zap.Duration("grace_period", gracePeriod),
 		)...,
 	)
@@ -215,7 +215,7 @@ func (d *disconnectHandler) handleGracePeriodExpired() {
 			// Reconnected, don't demote
 			log := d.election.getLogger()
 			log.Info("connection_reconnected_before_grace_period",
-				d.election.logWithContext(d.election.ctx)...,
+				d.election.logWithContext(d.election.logCtx())...,
 			)
 			return
 		}
@@ -226,7 +226,7 @@ func (d *disconnectHandler) handleGracePeriodExpired() {
 		log := d.election.getLogger()
 		disconnectedDuration := time.Since(disconnectedAt)
 		log.Error("demoting_due_to_connection_loss",
-			append(d.election.logWithContext(d.election.ctx),
+			append(d.election.logWithContext(d.election.logCtx()),
 				zap.Duration("disconnected_duration", disconnectedDuration),
 			)...,
 		)
@@ -255,7 +255,7 @@ func (e *kvElection) handleReconnect() {
 
 	log := e.getLogger()
 	log.Info("connection_reconnected",
-		e.logWithContext(e.ctx)...,
+		e.logWithContext(e.logCtx())...,
 	)
 
 	if e.cfg.Metrics != nil {
@@ -271,7 +271,7 @@ func (e *kvElection) handleReconnect() {
 	}
 
 	log.Info("verifying_leadership_after_reconnect",
-		e.logWithContext(e.ctx)...,
+		e.logWithContext(e.logCtx())...,
 	)
 
 	e.wg.Add(1)
@@ -351,7 +351,7 @@ func (e *kvElection) handleReconnectVerificationFailed(err error) {
 	if e.isLeader.Load() {
 		log := e.getLogger()
 		log.Error("demoting_due_to_reconnect_verification_failure",
-			append(e.logWithContext(e.ctx),
+			append(e.logWithContext(e.logCtx()),
 				zap.Error(err),
 				zap.String("error_type", classifyErrorType(err)),
 			)...,
